@@ -6,6 +6,7 @@
 //!       run a randomized driver against the real API and write an ndjson trace for TLC
 
 #![allow(dead_code)]
+mod disturb;
 mod extras;
 mod layers;
 mod netcase;
